@@ -353,8 +353,8 @@ repair: `in_progress` strictly grows inside the finite set of (table, row) pairs
 fuel `number of rows + 1` is enough for the whole DELETE (CASCADE / NO ACTION schemas; SET NULL does
 not recurse).  Before the repair no fuel was enough on a cycle (`C12_cyclic_cascade_exhausts_fuel`). -/
 theorem C12_cascade_terminates_on_every_graph (fks : List FkDecl) (hco : CascadeOnly fks) (tables : List Nat)
-    (db : Db) (hcov : ∀ i, i ∉ tables → db i = []) (t : Nat) (sel : Row → Bool) (fuel : Nat)
-    (hf : (allRows tables db).length < fuel) : deleteWithFksV fks fuel db t sel ≠ .error .fuel := by
+    (db : Db) (hcov : ∀ i, i ∉ tables → db i = []) (t : Nat) (pk : List Nat) (sel : Row → Bool) (fuel : Nat)
+    (hf : (allRows tables db).length < fuel) : deleteWithFksV fks fuel db t pk sel ≠ .error .fuel := by
   have hu := rowsIn_allRows tables db hcov
   generalize allRows tables db = u at hf hu
   have hun : unseen u [] = u.length := by
@@ -383,7 +383,7 @@ theorem C12_cascade_terminates_on_every_graph (fks : List FkDecl) (hco : Cascade
   · simp
 
 /-- the 1 → 2 → 1 cycle that exhausted every fuel now ends with both rows deleted -/
-example : (match deleteWithFksV cycleFks 3 cycleDb 0 (fun r => r.getD 0 .null == .int 1) with
+example : (match deleteWithFksV cycleFks 3 cycleDb 0 [0] (fun r => r.getD 0 .null == .int 1) with
     | .ok db => some (db 0)
     | .error _ => none) = some [] := by decide
 
@@ -391,7 +391,7 @@ example : (match deleteWithFksV cycleFks 3 cycleDb 0 (fun r => r.getD 0 .null ==
 row and its referrer: the stale-position defect is gone (rows are found again by value) -/
 example : (match deleteWithFksV cycleFks 5
     (fun i => if i = 0 then [[.int 2, .int 1], [.int 1, .null], [.int 3, .null], [.int 4, .int 3]] else [])
-    0 (fun r => r.getD 0 .null == .int 1) with
+    0 [0] (fun r => r.getD 0 .null == .int 1) with
     | .ok db => some (db 0)
     | .error _ => none) = some [[.int 3, .null], [.int 4, .int 3]] := by decide
 
